@@ -45,12 +45,45 @@ theorem compactAdj_strict : ∀ l : List Int, l.Pairwise (· ≤ ·) → (compac
       · have := (List.pairwise_cons.mp h').1 a har
         omega
 
-theorem sortInts_perm (l : List Int) : (sortInts l).Perm l := List.mergeSort_perm l _
+theorem insInt_perm (a : Int) : ∀ l : List Int, (insInt a l).Perm (a :: l)
+  | [] => List.Perm.refl _
+  | b :: rest => by
+    simp only [insInt]
+    split
+    · exact List.Perm.refl _
+    · exact ((insInt_perm a rest).cons b).trans (List.Perm.swap a b rest)
 
-theorem sortInts_sorted (l : List Int) : (sortInts l).Pairwise (· ≤ ·) := by
-  have := List.pairwise_mergeSort (le := fun a b : Int => decide (a ≤ b))
-    (by intro a b c; simp; omega) (by intro a b; simp; omega) l
-  simpa [sortInts] using this
+theorem sortInts_perm : ∀ l : List Int, (sortInts l).Perm l
+  | [] => List.Perm.refl _
+  | a :: rest => (insInt_perm a (sortInts rest)).trans ((sortInts_perm rest).cons a)
+
+theorem insInt_sorted (a : Int) : ∀ l : List Int, l.Pairwise (· ≤ ·) → (insInt a l).Pairwise (· ≤ ·)
+  | [], _ => by simp [insInt]
+  | b :: rest, h => by
+    simp only [insInt]
+    have hb := List.pairwise_cons.mp h
+    split
+    · rename_i hab
+      rw [List.pairwise_cons]
+      refine ⟨?_, h⟩
+      intro c hc
+      simp only [List.mem_cons] at hc
+      rcases hc with rfl | hc
+      · exact hab
+      · have := hb.1 c hc; omega
+    · rename_i hab
+      rw [List.pairwise_cons]
+      refine ⟨?_, insInt_sorted a rest hb.2⟩
+      intro c hc
+      have := (insInt_perm a rest).mem_iff.mp hc
+      simp only [List.mem_cons] at this
+      rcases this with rfl | hc'
+      · omega
+      · exact hb.1 c hc'
+
+theorem sortInts_sorted : ∀ l : List Int, (sortInts l).Pairwise (· ≤ ·)
+  | [] => by simp [sortInts]
+  | a :: rest => insInt_sorted a _ (sortInts_sorted rest)
 
 theorem mem_sortInts (l : List Int) (a : Int) : a ∈ sortInts l ↔ a ∈ l := (sortInts_perm l).mem_iff
 
@@ -250,7 +283,7 @@ theorem muxOK_ins (w W' : MW) (x s : Nat) (xe xe' se : SigE) (gc gs : Int) (hxo 
     obtain ⟨e', he', _, hn⟩ := hs'
     simp [nameOf, he', hn]
   refine ⟨⟨hlen', hxo.shape.2.1, hxo.shape.2.2⟩, fun g' hg' => (G g' hg').1, fun g' hg' => (G g' hg').2,
-    ?_, ?_, ?_, ?_, ?_, ?_, ?_, ?_⟩
+    ?_, ?_, ?_, ?_, ?_, ?_, ?_, ?_, ?_⟩
   · -- fixed signals are in every group
     intro t ht g' hg'
     obtain ⟨k, hk, rfl, hgm⟩ := hidx g' hg'
@@ -356,5 +389,11 @@ theorem muxOK_ins (w W' : MW) (x s : Nat) (xe xe' se : SigE) (gc gs : Int) (hxo 
           apply hfree
           rw [← hne]
           exact (hxo.names n i).mpr ⟨hi, hn0⟩
+  · rw [hsig]
+    unfold sAdd
+    split
+    · exact hxo.sigsNodup
+    · rename_i hc
+      exact List.nodup_cons.mpr ⟨by simpa using hc, hxo.sigsNodup⟩
 
 end Acme.Mux
